@@ -170,6 +170,11 @@ pub struct Hist {
 const CHUNK: u64 = 1 << 17;
 
 pub fn histogram(s: &dyn Sampler, edges: &[f64], n: u64, seed: u64) -> Hist {
+    histogram_with(&|rng: &mut BaseRng, out: &mut [f64]| s.fill(rng, out), edges, n, seed)
+}
+
+/// same, for any bulk sampling closure (used by the selftest's synthetic samplers)
+pub fn histogram_with(fill: &(dyn Fn(&mut BaseRng, &mut [f64]) + Sync), edges: &[f64], n: u64, seed: u64) -> Hist {
     let chunks = (n + CHUNK - 1) / CHUNK;
     let k = edges.len();
     (0..chunks)
@@ -188,7 +193,7 @@ pub fn histogram(s: &dyn Sampler, edges: &[f64], n: u64, seed: u64) -> Hist {
             let mut left = m as usize;
             while left > 0 {
                 let b = left.min(4096);
-                s.fill(&mut rng, &mut buf[..b]);
+                fill(&mut rng, &mut buf[..b]);
                 for &x in &buf[..b] {
                     if x.is_nan() {
                         h.nan += 1;
@@ -462,7 +467,7 @@ pub struct LawOutcome {
 
 pub struct LawJob<'a> {
     pub cell: &'a Cell,
-    pub sampler: &'a dyn Sampler,
+    pub sampler: &'a (dyn Fn(&mut BaseRng, &mut [f64]) + Sync),
     pub law: &'a RefLaw,
     pub n: u64,
     pub seed: u64,
@@ -475,12 +480,12 @@ pub fn check_law(job: &LawJob) -> LawOutcome {
     let sl = Slack::for_cell(cell, job.law);
     let edges = build_edges(job.law, cell.ft, float_out);
     let eb: Vec<EdgeB> = edges.iter().map(|&x| edge_bounds(job.law, &sl, x)).collect();
-    let h = histogram(job.sampler, &edges, job.n, job.seed);
+    let h = histogram_with(job.sampler, &edges, job.n, job.seed);
     let opts = TestOpts::default();
     let first = run_tests(&eb, &h, &opts);
     let mut confirmed = vec![];
     if !first.is_empty() {
-        let h2 = histogram(job.sampler, &edges, job.n * 4, hseed(&[job.seed, 0xC0F1]));
+        let h2 = histogram_with(job.sampler, &edges, job.n * 4, hseed(&[job.seed, 0xC0F1]));
         let second = run_tests(&eb, &h2, &opts);
         for r in &second {
             if first.iter().any(|f| f.same_stat(r)) {
